@@ -29,6 +29,9 @@ def hist_jobs(build, n, seed, props, n_events=120, ids_pool=(3, 4, 5, 6, 17), op
         rng = random.Random("%s/%d/%d" % (tag, seed, i))
         cfg = cfg_fn(rng) if cfg_fn else random_config(rng, want_class)
         ids = list(ids_pool)[:rng.choice([3, 4, 5])] if len(ids_pool) >= 5 else list(ids_pool)
+        if i % 4 == 2 and len(ids_pool) >= 5:
+            # ids that agree in their low 8 / 10 / 16 bits, and ids at the ends of the int range (the table is keyed by int)
+            ids = [[5, 261, 1029, 65541], [7, 7 + 1024, 7 + 2048, 7 + (1 << 20)], [-2147483648, 2147483647, -2, 2000000000, -2000000000]][(i // 4) % 3]
         o = dict(opts or {})
         o.setdefault("vary_addr", vary_addr)
         rng2 = random.Random("%s/r/%d/%d" % (tag, seed, i))
